@@ -82,18 +82,20 @@ Record env_case := EnvC {
   c_nu : str;                          (* the UUID the wrapped message got (normalised) *)
   c_wrap : res msg;                    (* implementation *)
   c_libdec : option envelope;          (* json.Unmarshal of the implementation's wrapped payload, called by the harness *)
-  c_unwrap : res (str * msg)           (* implementation; meaningful when wrap succeeded *)
+  c_unwrap : res (str * msg);          (* implementation; meaningful when wrap succeeded *)
+  c_valid : bool                       (* Go's utf8.ValidString on destination, UUID, every metadata key and value *)
 }.
 Definition pair_eqb (x y : str * msg) : bool := str_eqb (fst x) (fst y) && msg_obs_eqb (snd x) (snd y).
+Definition env_inputs_utf8 (dest : str) (m : msg) : bool :=
+  utf8_valid dest && utf8_valid (uuid m) && md_utf8 (meta m).
 Definition env_mismatch (c : env_case) : bool :=
   let w := wrap (fun _ => c_libenc c) (c_nu c) (c_dest c) (c_m c) in
   negb (res_eqb msg_obs_eqb w (c_wrap c)
+        && Bool.eqb (env_inputs_utf8 (c_dest c) (c_m c)) (c_valid c)      (* the Gallina validator is Go's *)
         && match c_wrap c with
            | Ok wi => res_eqb pair_eqb (unwrap (fun _ => c_libdec c) wi) (c_unwrap c)
            | Err _ => true
            end).
-Definition env_inputs_utf8 (dest : str) (m : msg) : bool :=
-  utf8_valid dest && utf8_valid (uuid m) && md_utf8 (meta m).
 Definition env_violates (c : env_case) : bool :=
   if str_eqb (c_dest c) [] then is_ok (c_wrap c)                 (* an empty destination must be refused *)
   else if env_inputs_utf8 (c_dest c) (c_m c)
@@ -246,6 +248,11 @@ Definition rp_violates (c : rp_case) : bool :=
 Record ru_case := RuC { z_m : msg; z_rdec : option str; z_got : res (str * option str) }.
 Definition ru_mismatch (c : ru_case) : bool :=
   negb (res_eqb reply_obs_eqb (rp_of (unmarshal_reply str (fun _ => z_rdec c) (z_m c))) (z_got c)).
+
+(** the Gallina UTF-8 validator against Go's utf8.Valid *)
+Record u8_case := U8C { w_s : str; w_valid : bool }.
+Definition u8_mismatch (c : u8_case) : bool := negb (Bool.eqb (utf8_valid (w_s c)) (w_valid c)).
+Definition u8_mismatches (cs : list u8_case) := positions (map u8_mismatch cs).
 
 Definition eq_mismatches (cs : list eq_case) := positions (map eq_mismatch cs).
 Definition eq_violations (cs : list eq_case) := positions (map eq_violates cs).
